@@ -204,6 +204,32 @@ static void report(int config, int k, int big) {
          inuse_blocks, purge_blocks, dirty_blocks, dirty_unpurged, td_cached, shim_count(SHIM_MMAP), shim_count(SHIM_MUNMAP), shim_count(SHIM_MADVISE), shim_count(SHIM_MPROTECT));
 }
 
+// ---------------------------------------------------------------- D: thread metadata under OS refusals (C07 / C11)
+// mi_thread_data_zalloc tries the OS twice (issue #257); whichever attempt succeeds, the metadata must be zero up to its memid,
+// carry the memid of THAT mapping, and be unmapped again by mi_thread_data_free + _mi_thread_data_collect.
+static int td_fail_mask = 0, td_calls = 0;
+static int td_fail_hook(int seq, int kind, void* addr, size_t len) { (void)seq; (void)addr; (void)len; if (kind != SHIM_MMAP) return 0; int k = td_calls++; return (td_fail_mask >> k) & 1; }
+static void td_faults(void) {
+  _mi_thread_data_collect();
+  for (int round = 0; round < 3; round++) for (int mask = 0; mask < 4; mask++) {
+    const size_t mapped0 = shim_total_mapped(); const size_t nmaps0 = shim_mapping_count();
+    td_fail_mask = mask; td_calls = 0; shim_fail = td_fail_hook;
+    mi_thread_data_t* td = mi_thread_data_zalloc();
+    shim_fail = NULL;
+    int zero = 1, memkind = -1;
+    if (td != NULL) {
+      for (size_t i = 0; i < offsetof(mi_thread_data_t, memid); i++) if (((uint8_t*)td)[i] != 0) { zero = 0; break; }
+      memkind = (int)td->memid.memkind;
+      memset(td, 0xA5, offsetof(mi_thread_data_t, memid));           // a thread would dirty it
+      mi_thread_data_free(td);
+    }
+    const size_t mapped1 = shim_total_mapped();
+    _mi_thread_data_collect();
+    printf("T td round=%d mask=%d ok=%d expect_ok=%d zero=%d memkind=%d mmaps=%d mapped_before=%zu mapped_cached=%zu mapped_after=%zu nmaps_before=%zu nmaps_after=%zu\n",
+           round, mask, td != NULL, mask != 3, zero, memkind, td_calls, mapped0, mapped1, shim_total_mapped(), nmaps0, shim_mapping_count());
+  }
+}
+
 int main(int argc, char** argv) {
   const char* mode = (argc > 1 ? argv[1] : "R");
   uint64_t seed = (argc > 2 ? strtoull(argv[2], NULL, 10) : 1);
@@ -212,6 +238,7 @@ int main(int argc, char** argv) {
     int thorough = (argc > 3 ? atoi(argv[3]) : 0);
     roundtrips(thorough ? 6000 : 500);
   }
+  else if (mode[0] == 'D') { td_faults(); }
   else {
     int config = (argc > 3 ? atoi(argv[3]) : 0);
     int reps = (argc > 4 ? atoi(argv[4]) : 4);
